@@ -40,6 +40,8 @@ type monC08 struct {
 	Markers [2][][]byte // texts given to Send, in order
 	Queued  [2][]int    // indices of markers still queued for encryption
 	NWalks  int
+	Disc     [][]byte  // disconnect messages emitted by End() …
+	DiscSSID [][8]byte // … and the session each belongs to
 	// every buffer of the conversation in which a live D-H exponent has been seen (aliases, kept when the
 	// conversation lets go of them): once the exponent is dead they must have been zeroed in place
 	Holders [2][]c08Holder `verif:"nohash"`
@@ -77,7 +79,7 @@ func c08Update(l *c08Life, p *verifPrincipal, call string, inType messageTypeGue
 		return false
 	}
 	completed := verifHasEvent(r.Events, 'S', int(GoneSecure)) || verifHasEvent(r.Events, 'S', int(StillSecure))
-	ended := verifHasEvent(r.Events, 'S', int(GoneInsecure)) || call == "end"
+	ended := verifHasEvent(r.Events, 'S', int(GoneInsecure)) || call == "end" || call == "deliver-disconnect"
 	smpCall := call == "smpstart" || call == "smpanswer" || (call == "deliver" && inType == msgGuessData)
 	startsExchange := outHas(msgGuessDHCommit) || outHas(msgGuessDHKey)
 	for _, ix := range newDraws {
@@ -352,10 +354,18 @@ func verifC08Sys(id string, seed int64) *verifSys {
 		p := w.P[e.I]
 		var r verifResult
 		var inType messageTypeGuess = -1
+		call := ""
 		switch e.K {
 		case "deliver":
 			msg := w.pop(e.I)
 			inType = guessMessageType(msg)
+			// the peer's disconnect for the session this side is in: from here on the session's secrets are dead,
+			// whatever the conversation makes of the message
+			for k, d := range m.Disc {
+				if bytes.Equal(d, msg) && p.C.IsEncrypted() && p.C.ssid == m.DiscSSID[k] {
+					call = "deliver-disconnect"
+				}
+			}
 			r = p.Receive(msg)
 			if r.HasPln || verifHasEvent(r.Events, 'S', int(GoneSecure)) {
 				// texts queued under required encryption are released when the session starts
@@ -374,7 +384,20 @@ func verifC08Sys(id string, seed int64) *verifSys {
 		case "end":
 			m.U--
 			m.NEnd[e.I]--
+			var alt []ValidMessage
+			if strings.Contains(pol, "p") && p.C.IsEncrypted() {
+				// the same disconnect as another implementation may write it: padding TLV first (any order is legal)
+				alt, _, _ = verifClone(p).C.createSerializedDataMessage(nil, messageFlagIgnoreUnreadable, []tlv{{tlvType: tlvTypePadding, tlvLength: 5, tlvValue: make([]byte, 5)}, {tlvType: tlvTypeDisconnected}})
+			}
+			ssidBefore, wasEnc := p.C.ssid, p.C.IsEncrypted()
 			r = p.End()
+			if len(alt) == 1 && len(r.Out) == 1 {
+				r.Out = [][]byte{alt[0]}
+			}
+			if wasEnc && len(r.Out) == 1 {
+				m.Disc = append(m.Disc, append([]byte{}, r.Out[0]...))
+				m.DiscSSID = append(m.DiscSSID, ssidBefore)
+			}
 		case "query":
 			m.U--
 			m.NQuery[e.I]--
@@ -404,7 +427,10 @@ func verifC08Sys(id string, seed int64) *verifSys {
 			}
 		}
 		w.push(e.I, r.Out)
-		fs = append(fs, after(w, e.I, e.K, inType, r)...)
+		if call == "" {
+			call = e.K
+		}
+		fs = append(fs, after(w, e.I, call, inType, r)...)
 		return fs
 	}
 	sys.Label = func(w *verifWorld) string {
@@ -427,11 +453,11 @@ func init() {
 		Level: "model_checking",
 		Build: verifC08Sys,
 		Run: func(r *verifReport) {
-			r.Rule = "explicit-state exploration of session histories from an established session (texts both ways with rotation, End on either side, refresh by query, one SMP run with answer or abort, all FIFO delivery interleavings, within an event budget U); after EVERY API call the log of the deterministic randomness source is classified (DH exponents, exchange secret r, SMP exponents) and a reference lifetime model driven by observable progress (messages emitted, security and SMP events) says which draws are dead; a reflective walk of the whole conversation (all buffers to full capacity, big.Int words) must not contain any dead secret nor any text given to Send other than the most recent / still queued ones, and the buffer that received a dead DH exponent, and every buffer of the conversation in which a copy of it was ever seen (aliases are kept), must have been zeroed in place"
+			r.Rule = "explicit-state exploration of session histories from an established session (texts both ways with rotation, End on either side (configurations 'p': with the disconnect written padding-TLV-first, as another implementation may), refresh by query, one SMP run with answer or abort, all FIFO delivery interleavings, within an event budget U); after EVERY API call the log of the deterministic randomness source is classified (DH exponents, exchange secret r, SMP exponents) and a reference lifetime model driven by observable progress (messages emitted, security and SMP events) says which draws are dead; a reflective walk of the whole conversation (all buffers to full capacity, big.Int words) must not contain any dead secret nor any text given to Send other than the most recent / still queued ones, and the buffer that received a dead DH exponent, and every buffer of the conversation in which a copy of it was ever seen (aliases are kept), must have been zeroed in place"
 			r.Assumptions = []string{"copies made by the Go runtime or inside crypto/dsa are out of reach (SECURITY_ASSUMPTIONS.md says the same)", "draws are classified by length and by the call they were made in; draws that cannot be classified are never reported"}
-			ids := []string{"v3//U3", "v2//U3", "v3/r/U3"}
+			ids := []string{"v3//U3", "v2//U3", "v3/r/U3", "v2/p/U3"}
 			if r.Tier == "thorough" {
-				ids = []string{"v2/r/U3", "v3/e/U3", "v3//U4", "v2//U4", "v3/r/U4", "v2/r/U4", "v3/e/U4"} // sized to complete within the budget (U5 needs > 1.7 M states for one configuration)
+				ids = []string{"v2/r/U3", "v3/e/U3", "v3//U4", "v2//U4", "v3/r/U4", "v2/r/U4", "v3/e/U4", "v3/p/U4"} // sized to complete within the budget (U5 needs > 1.7 M states for one configuration)
 			}
 			for _, id := range ids {
 				r.explore(verifC08Sys(id, r.Seed))
